@@ -249,7 +249,7 @@ class C11(Prop):
         "gev_fit_post", "gev_objective_is_neg_loglik", "gev_gradient_is_derivative", "sxp_binned_fit_post", "sxp_binned_objective_is_neg_loglik",
         "gamma_shape_likelihood_equation", "gamma_engine_fixed_point_is_stationary_partial", "gev_censored_objective_is_neg_loglik", "sxp_shape_likelihood_equation", "gev_fit_scale_positive", "gev_censored_gradient_is_derivative", "plot_number_format_rounds_half_even",
         # round 6b
-        "exp_tail_fit_is_ml_of_the_raw_tail", "exp_tail_counts_only_the_tail")]
+        "exp_tail_fit_is_ml_of_the_raw_tail", "exp_tail_counts_only_the_tail", "exp_tail_fit_by_mass_is_ml_of_the_raw_tail")]
     claimed = True
     technique = ("Lean 4 proof over an executable line-by-line model (numeric class: Float for the bit-exact differential run, Q/R for the theorems) "
                  "+ bit-exact correspondence with the ASan/UBSan-built C code + exact-rational / log-likelihood property monitors")
